@@ -213,22 +213,145 @@ def gen_wf(rng, max_eps=7, p_mutual=0.05, p_double_q=0.03):
             "hcons": [[N(a), r_, N(b)] for a, r_, b in hcons], "icons": [], "vars": variables}
 
 
+def _jep(pred, label, args):
+    return {"pred": pred, "label": label, "args": args, "carg": None, "lnk": None, "surface": None, "base": None}
+
+
+# "nearly every dog barks" (Verif.C05.nearlyEvery): _nearly_x_deg shares the scope of _every_q, two
+# representatives; the predicate-modifier edge depends on the representative priority
+NEARLY_EVERY = {"top": ["h", 0], "index": ["e", 2], "icons": [], "vars": [[["e", 2], [["TENSE", "pres"]]]],
+                "rels": [_jep("_nearly_x_deg", ["h", 4], [["ARG0", ["e", 9]], ["ARG1", ["u", 10]]]),
+                         _jep("_every_q", ["h", 4], [["ARG0", ["x", 3]], ["RSTR", ["h", 5]], ["BODY", ["h", 6]]]),
+                         _jep("_dog_n_1", ["h", 7], [["ARG0", ["x", 3]]]),
+                         _jep("_bark_v_1", ["h", 1], [["ARG0", ["e", 2]], ["ARG1", ["x", 3]]])],
+                "hcons": [[["h", 0], "qeq", ["h", 1]], [["h", 5], "qeq", ["h", 7]]]}
+DOG_BARKS = {"top": ["h", 0], "index": ["e", 2], "icons": [], "vars": [],
+             "rels": [_jep("_the_q", ["h", 4], [["ARG0", ["x", 3]], ["RSTR", ["h", 5]], ["BODY", ["h", 6]]]),
+                      _jep("_dog_n_1", ["h", 7], [["ARG0", ["x", 3]]]),
+                      _jep("_bark_v_1", ["h", 1], [["ARG0", ["e", 2]], ["ARG1", ["x", 3]]])],
+             "hcons": [[["h", 0], "qeq", ["h", 1]], [["h", 5], "qeq", ["h", 7]]]}
+
+# two quantifiers of variables no predication has as its ARG0 (no BV edge, no entry in the dependency map):
+# one shares the scope of _every_q and gets a predicate-modifier edge, the other must stay without edges
+TWO_DANGLING = {"top": ["h", 0], "index": ["e", 2], "icons": [[["e", 2], "topic", ["x", 3]]], "vars": [],
+                "rels": [_jep("_every_q", ["h", 4], [["ARG0", ["x", 3]], ["RSTR", ["h", 5]], ["BODY", ["h", 6]]]),
+                         _jep("udef_q", ["h", 4], [["ARG0", ["x", 8]], ["RSTR", ["h", 10]]]),
+                         _jep("udef_q", ["h", 12], [["ARG0", ["x", 9]], ["RSTR", ["h", 11]]]),
+                         _jep("_dog_n_1", ["h", 7], [["ARG0", ["x", 3]]]),
+                         _jep("_bark_v_1", ["h", 1], [["ARG0", ["e", 2]], ["ARG1", ["x", 3]]])],
+                "hcons": [[["h", 0], "qeq", ["h", 1]], [["h", 5], "qeq", ["h", 7]], [["h", 10], "qeq", ["h", 7]],
+                          [["h", 11], "qeq", ["h", 1]]]}
+
 CONFIGS4 = [{"pm": "std", "uniq": True}, {"pm": "std", "uniq": False},
             {"pm": "off", "uniq": True}, {"pm": "off", "uniq": False}]
+
+PRIOS = ["default", "reverse", "const", "predlen"]
+# every value the predicate_modifiers argument is given: True / False / None (falsy) / the public
+# find_predicate_modifiers itself / a wrapper of it / functions of the arguments from_mrs hands over
+PM_VALUES = ["std", "off", "none", "fn:std", "wrap", "empty", "fn:isolated", "fn:reps", "fn:raise"]
+PATHS = ["direct", "staged", "findpm"]
+
+
+def full_configs():
+    """the whole cross product predicate_modifiers x unique_ids x representative_priority, plus the staged
+    and stand-alone uses of the public functions under every priority; the priority varies fastest, so that on
+    the ONE live object of a case consecutive calls differ in it (what an earlier call — also one that ended in
+    an exception of the callable — leaves behind is then seen by the next)"""
+    out = []
+    for pm in PM_VALUES:
+        for uniq in (True, False):
+            for prio in PRIOS:
+                out.append({"pm": pm, "uniq": uniq, "prio": prio})
+    for uniq in (True, False):
+        for prio in PRIOS:
+            out.append({"pm": "std", "uniq": uniq, "prio": prio, "path": "staged"})
+    for prio in PRIOS:
+        out.append({"pm": "std", "uniq": False, "prio": prio, "path": "findpm"})
+    return out
+
+
+def map_vars(m, f):
+    """the MRS with f applied to every variable [sort, id] (consistently)"""
+    m = copy.deepcopy(m)
+
+    def g(v):
+        return None if v is None else f(v)
+    m["top"], m["index"] = g(m["top"]), g(m["index"])
+    for ep in m["rels"]:
+        ep["label"] = g(ep["label"])
+        ep["args"] = [[r, g(v)] for r, v in ep["args"]]
+    m["hcons"] = [[g(a), r, g(b)] for a, r, b in m["hcons"]]
+    m["icons"] = [[g(a), r, g(b)] for a, r, b in m.get("icons", [])]
+    m["vars"] = [[g(v), ps] for v, ps in m.get("vars", [])]
+    return m
+
+
+def split_ids(rng, m):
+    """non-contiguous ids that collide under 8/16/32/64-bit packings: every variable independently keeps its
+    id or gets it increased by 2^k (injective, since the small ids are below 2^8)"""
+    k = rng.choice([8, 16, 31, 32, 63, 64])
+    moved = {}
+
+    def f(v):
+        key = (v[0], v[1])
+        if key not in moved:
+            moved[key] = rng.random() < 0.5
+        return [v[0], v[1] + (2 ** k if moved[key] else 0)]
+    return map_vars(m, f)
 
 
 def gen_configs(rng, m):
     cfgs = copy.deepcopy(CONFIGS4)
     n = len(m["rels"])
     r = rng.random()
-    if r < 0.3:
+    if r < 0.2:
         cfgs.append({"pm": "wrap", "uniq": rng.random() < 0.5})
-    elif r < 0.4:
-        cfgs.append({"pm": "empty", "uniq": rng.random() < 0.5})
-    elif r < 0.6 and n >= 2:
+    elif r < 0.3:
+        cfgs.append({"pm": rng.choice(["empty", "none"]), "uniq": rng.random() < 0.5})
+    elif r < 0.45 and n >= 2:
         a, b = rng.sample(range(n), 2)
         cfgs.append({"pm": {"const": [[a, rng.choice(["MOD", "ARG1", "ARG7"]), b]]}, "uniq": rng.random() < 0.5})
+    elif r < 0.75:
+        cfgs.append({"pm": rng.choice(["fn:std", "fn:isolated", "fn:reps", "fn:reps", "fn:raise"]),
+                     "uniq": rng.random() < 0.5})
+    # a user-supplied representative_priority (any predicate_modifiers value)
+    if rng.random() < 0.5:
+        cfgs.append({"pm": rng.choice(["std", "std", "off", "fn:reps", "wrap", "fn:std"]), "uniq": rng.random() < 0.5,
+                     "prio": rng.choice(PRIOS[1:])})
+    # the public functions used one after the other / find_predicate_modifiers on its own
+    r = rng.random()
+    if r < 0.3:
+        cfgs.append({"pm": "std", "uniq": rng.random() < 0.5, "path": "staged",
+                     "prio": "default" if rng.random() < 0.7 else rng.choice(PRIOS[1:])})
+    elif r < 0.5:
+        cfgs.append({"pm": "std", "uniq": False, "path": "findpm",
+                     "prio": "default" if rng.random() < 0.7 else rng.choice(PRIOS[1:])})
+    if rng.random() < 0.25:
+        rng.shuffle(cfgs)         # e.g. a raising callable BEFORE the ordinary calls on the same object
     return cfgs
+
+
+def gen_doc(rng):
+    """structure-level lnk / surface / identifier of the source MRS"""
+    if rng.random() < 0.6:
+        return None
+    return {"lnk": rng.choice([None, [0, 14], [3, 3], [0, 2 ** 31]]),
+            "surface": rng.choice([None, "The dog barks.", ""]),
+            "identifier": rng.choice([None, "1", "item-7", ""])}
+
+
+def pm_kind(cfg):
+    """std: predicate-modifier edges may appear; off: none; user: the edges the callable returned; raise"""
+    if cfg.get("path") in ("staged", "findpm"):
+        return "std"
+    pm = cfg["pm"]
+    if pm in ("std", "wrap", "fn:std"):
+        return "std"
+    if pm in ("off", "empty", "none"):
+        return "off"
+    if pm == "fn:raise":
+        return "raise"
+    return "user"
 
 
 # ------------------------------------------------------------------ running the real code
@@ -255,67 +378,159 @@ def warn_kind(w):
     return "other:" + type(w.message).__name__
 
 
+class UserRaise(KeyError):
+    pass
+
+
+def _record(calls, e, m, representatives, returned=None):
+    calls.append({"node_ids": [n.id for n in e.nodes], "ep_ids": [ep.id for ep in m.rels],
+                  "top": e.top, "edges": [[n.id, r, t] for n in e.nodes for r, t in n.edges.items()],
+                  "reps": None if representatives is None else
+                  {l: [p.id for p in ps] for l, ps in representatives.items()},
+                  "returned": None if returned is None else
+                  [[s, r, t] for s, d in returned.items() for r, t in d.items()]})
+
+
 def make_pm(cfg_pm, calls):
     """the value passed as predicate_modifiers; `calls` records how a callable was called"""
     if cfg_pm == "std":
         return True
     if cfg_pm == "off":
         return False
+    if cfg_pm == "none":
+        return None
+    if cfg_pm == "fn:std":
+        return eds.find_predicate_modifiers
     if cfg_pm == "wrap":
         def wrap(e, m, representatives=None):
-            calls.append({"node_ids": [n.id for n in e.nodes], "ep_ids": [ep.id for ep in m.rels],
-                          "reps": None if representatives is None else
-                          {l: [p.id for p in ps] for l, ps in representatives.items()}})
+            _record(calls, e, m, representatives)
             return eds.find_predicate_modifiers(e, m, representatives=representatives)
         return wrap
     if cfg_pm == "empty":
         def empty(e, m, representatives=None):
-            calls.append({"node_ids": [n.id for n in e.nodes], "ep_ids": [ep.id for ep in m.rels], "reps": {}})
+            _record(calls, e, m, representatives)
             return {}
         return empty
+    if cfg_pm == "fn:isolated":
+        # twin of Verif.C05.ufIsolated: depends on the EDS it is handed
+        def isolated(e, m, representatives=None):
+            out = {}
+            if e.top is not None:
+                for n in e.nodes:
+                    if not n.edges and n.id != e.top:
+                        out.setdefault(n.id, {})["MOD"] = e.top
+            _record(calls, e, m, representatives, out)
+            return out
+        return isolated
+    if cfg_pm == "fn:reps":
+        # twin of Verif.C05.ufReps: depends on the representatives it is handed (and their order)
+        def repsfn(e, m, representatives=None):
+            out = {}
+            for _lbl, ps in representatives.items():
+                if len(ps) >= 2:
+                    out.setdefault(ps[-1].id, {})["R-REP"] = ps[0].id
+            _record(calls, e, m, representatives, out)
+            return out
+        return repsfn
+    if cfg_pm == "fn:raise":
+        def raising(e, m, representatives=None):
+            _record(calls, e, m, representatives)
+            raise UserRaise("user function")
+        return raising
     spec = cfg_pm["const"]
 
     def const(e, m, representatives=None):
-        calls.append({"node_ids": [n.id for n in e.nodes], "ep_ids": [ep.id for ep in m.rels], "reps": {}})
         out = {}
         for s, role, t in spec:
             out.setdefault(m.rels[s].id, {})[role] = m.rels[t].id
+        _record(calls, e, m, representatives, out)
         return out
     return const
+
+
+def make_prio(name, m):
+    """the value passed as representative_priority (twins of keyReverse / keyConst / keyPredLen)"""
+    if name in (None, "default"):
+        return None
+    n = len(m.rels)
+    index = {ep.id: i for i, ep in enumerate(m.rels, 1)}
+    if name == "reverse":
+        return lambda p: (0, n - index[p.id])
+    if name == "const":
+        return lambda p: (0, 0)
+    if name == "predlen":
+        return lambda p: (len(p.predicate), n - index[p.id])
+    raise ValueError(name)
+
+
+def mk_mrs(mj, doc=None):
+    m = semgen.mrs_from_json(mj)
+    if doc is not None:
+        if doc.get("lnk") is not None:
+            m.lnk = semgen._lnk_from_json(doc["lnk"])
+        m.surface = doc.get("surface")
+        m.identifier = doc.get("identifier")
+    return m
+
+
+ERRS = (IndexError, KeyError, ValueError, TypeError, AttributeError, eds.EDSError)
+
+
+def run_live(m, cfg):
+    """run the configuration on the LIVE object m (no fresh copy): (result or None, error name, warning
+    kinds, calls).  The result is an EDS (paths direct / staged) or, for the path findpm, the pair of
+    mappings find_predicate_modifiers returns without and with the representatives passed in."""
+    calls = []
+    path = cfg.get("path", "direct")
+    prio = make_prio(cfg.get("prio"), m)
+    with warnings.catch_warnings(record=True) as ws:
+        warnings.simplefilter("always")
+        try:
+            if path == "direct":
+                if prio is None and cfg.get("prio") is None:
+                    # the default is NOT passed: the call most users make
+                    e = eds.from_mrs(m, predicate_modifiers=make_pm(cfg["pm"], calls), unique_ids=cfg["uniq"])
+                else:
+                    e = eds.from_mrs(m, predicate_modifiers=make_pm(cfg["pm"], calls), unique_ids=cfg["uniq"],
+                                     representative_priority=prio)
+            elif path == "staged":
+                e = eds.from_mrs(m, predicate_modifiers=False, unique_ids=False, representative_priority=prio)
+                addl = eds.find_predicate_modifiers(e, m)
+                for id_, deps in addl.items():
+                    e[id_].edges.update(deps)
+                if cfg["uniq"]:
+                    eds.make_ids_unique(e, m)
+            elif path == "findpm":
+                e0 = eds.from_mrs(m, predicate_modifiers=False, unique_ids=False, representative_priority=prio)
+                a1 = eds.find_predicate_modifiers(e0, m)
+                a2 = eds.find_predicate_modifiers(e0, m, representatives=scope.representatives(m, priority=prio))
+                e = (a1, a2)
+            else:
+                raise ValueError(path)
+            err = None
+        except ERRS as ex:
+            e, err = None, ("KeyError" if isinstance(ex, UserRaise) else type(ex).__name__)
+    return e, err, [warn_kind(w) for w in ws], calls
 
 
 def convert(mj, cfg):
     """(EDS or None, error name or None, warning kinds, calls, MRS object)"""
     m = semgen.mrs_from_json(mj)
-    calls = []
-    with warnings.catch_warnings(record=True) as ws:
-        warnings.simplefilter("always")
-        try:
-            e = eds.from_mrs(m, predicate_modifiers=make_pm(cfg["pm"], calls), unique_ids=cfg["uniq"])
-            err = None
-        except (IndexError, KeyError, ValueError, TypeError, AttributeError, eds.EDSError) as ex:
-            e, err = None, type(ex).__name__
-    return e, err, [warn_kind(w) for w in ws], calls, m
+    return run_live(m, cfg) + (m,)
 
 
-def run_live(m, cfg):
-    """convert the LIVE object m (no fresh copy): (EDS or None, error name, warning kinds, calls)"""
-    calls = []
-    with warnings.catch_warnings(record=True) as ws:
-        warnings.simplefilter("always")
-        try:
-            e = eds.from_mrs(m, predicate_modifiers=make_pm(cfg["pm"], calls), unique_ids=cfg["uniq"])
-            err = None
-        except (IndexError, KeyError, ValueError, TypeError, AttributeError, eds.EDSError) as ex:
-            e, err = None, type(ex).__name__
-    return e, err, [warn_kind(w) for w in ws], calls
+def addl_obs(a):
+    return [[V(s), [[r, V(t)] for r, t in d.items()]] for s, d in a.items()]
 
 
 def obs_of(m, e, err, ws):
     if err is not None:
         return {"err": err}
+    if isinstance(e, tuple):
+        return {"ok": {"ids": [V(ep.id) for ep in m.rels], "addl": addl_obs(e[0]), "addl_reps": addl_obs(e[1])}}
     return {"ok": {"ids": [V(ep.id) for ep in m.rels], "top": V(e.top),
-                   "nodes": [node_obs(n) for n in e.nodes], "warnings": ws}}
+                   "nodes": [node_obs(n) for n in e.nodes], "warnings": ws,
+                   "doc": {"lnk": _lnk(e.lnk), "surface": e.surface, "identifier": e.identifier}}}
 
 
 def snapshot(m):
@@ -584,17 +799,32 @@ def c03_expressible(e):
 
 class C05(Check):
     pid = "C05"
+    props_modules = ["Verif.C05.Props", "Verif.C05.PropsApi"]
     quick_cases = 900
     thorough_cases = 9000
-    rule = ("Each case is one MRS converted under the four configurations predicate_modifiers in {True, False} x "
-            "unique_ids in {True, False}, plus (60%) one user-supplied predicate_modifiers function (a wrapper of the "
-            "standard one / one returning {} / one returning a fixed extra edge). MRS streams: (a) 55% constructive "
+    rule = ("Each case is one MRS (optionally with structure-level lnk / surface / identifier, 40%) put through a list of "
+            "configurations on ONE live object. A configuration = predicate_modifiers value (True / False / None / "
+            "eds.find_predicate_modifiers itself / a recording wrapper of it / callables returning {} , a fixed extra "
+            "edge, a MOD edge from every edge-less node of the EDS they are handed to its top, an R-REP edge from the "
+            "last to the first of the representatives they are handed, or raising) x unique_ids x "
+            "representative_priority (not passed / None / prefer-last / all-equal / by predicate length) x call path "
+            "(from_mrs / the staged use from_mrs(False, False) + find_predicate_modifiers(e, m) + e[id].edges.update + "
+            "make_ids_unique / find_predicate_modifiers on its own, with and without representatives). Every case has "
+            "the four plain configurations predicate_modifiers in {True, False} x unique_ids in {True, False}; about "
+            "75% one more predicate_modifiers value, 50% one configuration with a user priority, 50% one staged or "
+            "stand-alone call; 25% have their configurations shuffled. First, identical in every run: a BATTERY of 9 "
+            "fixed in-claim MRSs ('nearly every dog barks', 'the dog barks', four from gen_wf with a fixed seed having a "
+            "scope with several representatives, ids shifted by 2^63, ids colliding modulo 2^32, two quantifiers of "
+            "unexpressed variables) under the WHOLE cross product (93 configurations per MRS, the priority varying "
+            "fastest). MRS streams: (a) 55% constructive "
             "well-formed builder gen_wf: 1-7 predications in a scope tree, modifiers sharing a label with and without "
             "an argument between them (several representatives), ARG1 of such a modifier absent / unbound u,U / "
             "unexpressed of another sort / bound elsewhere, qeq and direct-label scopal arguments, unexpressed "
             "arguments, quantifiers for x/i variables (hole or label RSTR, with/without BODY, 15% inside a shared "
-            "scope), colliding ids q<n>, constants, alignments, surface/base, TENSE/SF/PERS/NUM properties, shuffled "
-            "EP order, three numbering schemes; 5% mutual-argument scopes (F08), 3% doubly bound variables (outside "
+            "scope), colliding ids q<n>, constants, alignments (also zero-width), surface/base (also ''), "
+            "TENSE/SF/PERS/NUM properties, shuffled EP order, three numbering schemes, 5% all ids shifted by "
+            "2^31-3 / 2^32-2 / 2^63-1 / 10^20, 6% every variable independently moved by 2^k (k in 8,16,31,32,63,64), "
+            "12% with individual constraints; 5% mutual-argument scopes (F08), 3% doubly bound variables (outside "
             "the claim); (b) 12% semgen.gen_mrs_tree; (c) 13% one or two mutations of (a)/(b); (d) 15% wild MRSs "
             "(semgen.gen_mrs_wild: shared IVs, missing ARG0, dangling/cyclic/duplicate hcons, self-scoping); (e) a "
             "slice of the enumeration of all MRSs with <= 2 EPs (semgen.enum_small_mrs). About half of the in-claim cases additionally carry one IN-PLACE EDIT of the live "
@@ -618,11 +848,17 @@ class C05(Check):
         "driver answers 'unmodelled' when that order is observable; both 'unmodelled' reasons are counted in the "
         "evidence (model_comparisons_by_config) split by in-claim / outside-claim, and an 'unmodelled' answer on a "
         "case inside the claim is reported as a model/implementation disagreement",
-        "representative_priority is left at its default",
+        "a user-supplied representative_priority is a total function into pairs of naturals (Python compares any "
+        "sortable rank); three such functions are run against the real code, the theorems quantify over all of them",
+        "a user-supplied predicate_modifiers callable is a pure function of (EDS handed over, MRS, representatives) "
+        "returning a mapping or raising; a callable that mutates what it is handed is outside the model",
+        "'otherwise unconnected' is read as: unconnected in the graph of the conversion without predicate modifiers "
+        "(what the theorems state); under the stricter reading 'unconnected apart from this edge' the real code's "
+        "edges of two different scopes can join the same two components twice (observed on about 2% of the inputs "
+        "with two or more modifier edges)",
         "in-place edits never touch ARG0/RSTR (EP ids are fixed by the constructor) and never append an EP: the id index "
         "and the variable map of a structure are built by its constructor only, so the real code raises KeyError even "
         "in is_well_formed on an object with an appended EP (observation, same nature as F09)",
-        "a user-supplied predicate_modifiers function is represented in the model by the mapping it returns",
         "native EDS reads property names upper-cased / values lower-cased (C03's business): the native round trip is "
         "compared modulo that folding",
     ]
@@ -712,7 +948,50 @@ class C05(Check):
         return lines
 
     # ---- generators
+    def battery_cases(self):
+        """deterministic, the same in every run and for every seed: a handful of fixed in-claim MRSs (two written
+        by hand, the others from gen_wf with a fixed seed, all with a scope that has several representatives or a
+        quantifier) under the WHOLE cross product of predicate_modifiers values x unique_ids x
+        representative_priority and the staged / stand-alone uses of the public functions"""
+        import random
+        fixed = random.Random(50505)
+        ms = [copy.deepcopy(NEARLY_EVERY), copy.deepcopy(DOG_BARKS)]
+        for hand in ms + [TWO_DANGLING]:
+            if not in_claim(semgen.mrs_from_json(hand)):
+                raise AssertionError("battery MRS outside the claim")
+        tries = 0
+        while len(ms) < 6 and tries < 400:
+            tries += 1
+            m = gen_wf(fixed, p_mutual=0.0, p_double_q=0.0)
+            try:
+                mo = semgen.mrs_from_json(m)
+                if not in_claim(mo):
+                    continue
+                reps = scope.representatives(mo)
+            except Exception:
+                continue
+            if any(len(v) == 0 for v in reps.values()) or not any(len(v) > 1 for v in reps.values()):
+                continue
+            ms.append(m)
+        ms.append(semgen.shift_vars(NEARLY_EVERY, 2 ** 63 - 5))
+        ms.append(copy.deepcopy(TWO_DANGLING))
+        # x3 / x(2^32+3), h4 / h(2^32+4) ...: ids that collide modulo 2^32
+        ms.append(map_vars(ms[2], lambda v: [v[0], v[1] + (2 ** 32 if (v[1] + len(v[0])) % 2 else 0)]))
+        cfgs = full_configs()
+        per = 21
+        docs = [None, {"lnk": [0, 14], "surface": "The dog barks.", "identifier": "1"},
+                {"lnk": None, "surface": "", "identifier": ""}]
+        k = 0
+        for m in ms:
+            for c in range(0, len(cfgs), per):
+                case = {"src": "battery", "m": m, "configs": copy.deepcopy(cfgs[c:c + per])}
+                if docs[k % 3] is not None:
+                    case["doc"] = docs[k % 3]
+                k += 1
+                yield case
+
     def cases(self, rng, tier, n):
+        yield from self.battery_cases()
         small = list(semgen.enum_small_mrs(2))
         step = 5 if tier == "thorough" else 1499
         off = rng.randrange(step)
@@ -723,6 +1002,9 @@ class C05(Check):
 
     def mk_case(self, src, m, rng):
         case = {"src": src, "m": m, "configs": gen_configs(rng, m)}
+        doc = gen_doc(rng)
+        if doc is not None:
+            case["doc"] = doc
         # "convert – edit in place – convert again" on about half of the in-claim cases
         try:
             claim = bool(m["rels"]) and in_claim(semgen.mrs_from_json(m))
@@ -739,7 +1021,16 @@ class C05(Check):
         for _ in range(n):
             r = rng.random()
             if r < 0.55:
-                yield self.mk_case("wf", gen_wf(rng), rng)
+                m = gen_wf(rng)
+                r2 = rng.random()
+                if r2 < 0.05:
+                    # variable ids beyond machine sizes (ids of quantifiers / _uniquify_ids / sorting by position)
+                    m = semgen.shift_vars(m, rng.choice([2 ** 31 - 3, 2 ** 32 - 2, 2 ** 63 - 1, 10 ** 20]))
+                elif r2 < 0.11:
+                    m = split_ids(rng, m)
+                if rng.random() < 0.12:
+                    m = semgen.add_icons(rng, m)        # individual constraints (from_mrs must ignore them)
+                yield self.mk_case("wf", m, rng)
             elif r < 0.67:
                 yield self.mk_case("tree", semgen.gen_mrs_tree(rng, mutual=0.08), rng)
             elif r < 0.80:
@@ -760,7 +1051,7 @@ class C05(Check):
     def impl(self, case):
         """ONE live MRS object goes through all configurations (a per-object cache is then seen);
         with an edit, the same object is edited in place and converted again under all of them"""
-        m = semgen.mrs_from_json(case["m"])
+        m = mk_mrs(case["m"], case.get("doc"))
         out = []
         for cfg in case["configs"]:
             e, err, ws, _ = run_live(m, cfg)
@@ -780,8 +1071,10 @@ class C05(Check):
             pm = cfg["pm"]
             if pm in ("std", "wrap"):
                 mp = "std"
-            elif pm in ("off", "empty"):
+            elif pm in ("off", "empty", "none"):
                 mp = "off"
+            elif isinstance(pm, str):
+                mp = pm                      # fn:std / fn:isolated / fn:reps / fn:raise
             else:
                 addl = []
                 for s, role, t in pm["const"]:
@@ -792,8 +1085,11 @@ class C05(Check):
                     else:
                         addl.append([V(ids[s]), [[role, V(ids[t])]]])
                 mp = {"custom": addl}
-            cfgs.append({"pm": mp, "uniq": cfg["uniq"]})
+            cfgs.append({"pm": mp, "uniq": cfg["uniq"], "prio": cfg.get("prio") or "default",
+                         "path": cfg.get("path", "direct")})
         req = {"op": "from_mrs", "m": case["m"], "configs": cfgs}
+        if case.get("doc") is not None:
+            req["doc"] = case["doc"]
         if case.get("edit") is not None:
             req["m2"] = apply_edit_json(case["m"], case["edit"])
         return req
@@ -855,13 +1151,14 @@ class C05(Check):
                 if phase:
                     f["phase"] = phase
                 fails.append(f)
-        live = semgen.mrs_from_json(case["m"])
+        live = mk_mrs(case["m"], case.get("doc"))
         snap = snapshot(live)
         first = []
         for cfg in case["configs"]:
             r1 = run_live(live, cfg)
             first.append(obs_of(live, r1[0], r1[1], r1[2]))
-            add(self.oracle_config(live, cfg, r1), cfg, None)
+            add(self.oracle_config(live, cfg, r1, case["m"]), cfg, None)
+            add(self.oracle_paths(live, cfg, first[-1]), cfg, None)
             if snapshot(live) != snap:
                 add([{"clause": "the conversion modifies the source MRS", "detail": None}], cfg, None)
                 snap = snapshot(live)
@@ -887,9 +1184,10 @@ class C05(Check):
         for cfg in case["configs"]:
             r2 = run_live(live, cfg)
             # judged against the CURRENT content of the object ...
-            add(self.oracle_config(live, cfg, r2), cfg, "after the in-place edit")
+            add(self.oracle_config(live, cfg, r2, m2j), cfg, "after the in-place edit")
+            add(self.oracle_paths(live, cfg, obs_of(live, r2[0], r2[1], r2[2])), cfg, "after the in-place edit")
             # ... and equal to the conversion of a freshly built MRS with the same content
-            fresh = semgen.mrs_from_json(m2j)
+            fresh = mk_mrs(m2j, case.get("doc"))
             rf = run_live(fresh, cfg)
             if canon(obs_of(live, r2[0], r2[1], r2[2])) != canon(obs_of(fresh, rf[0], rf[1], rf[2])):
                 add([{"clause": "conversion after an in-place edit differs from the conversion of a fresh MRS "
@@ -899,7 +1197,54 @@ class C05(Check):
                 "after the in-place edit")
         return fails
 
-    def oracle_config(self, m, cfg, conv):
+    def oracle_paths(self, m, cfg, obs):
+        """the public entry points agree with each other (judged on the real code only): the staged use of
+        from_mrs(False, False) + find_predicate_modifiers + make_ids_unique, find_predicate_modifiers passed as
+        the callable and a falsy predicate_modifiers against the plain calls; find_predicate_modifiers on its own
+        returns exactly the edges by which from_mrs(True) differs from from_mrs(False)"""
+        fails = []
+
+        def fail(clause, detail=None):
+            fails.append({"clause": clause, "detail": detail})
+
+        def plain(pm, uniq, prio=None):
+            c = {"pm": pm, "uniq": uniq}
+            if prio not in (None, "default"):
+                c["prio"] = prio
+            r = run_live(m, c)
+            return obs_of(m, r[0], r[1], r[2])
+        path = cfg.get("path", "direct")
+        default_prio = cfg.get("prio") in (None, "default")
+        if path == "staged" and default_prio:
+            if canon(obs) != canon(plain("std", cfg["uniq"])):
+                fail("find_predicate_modifiers + make_ids_unique applied by hand to from_mrs(m, False, False) differ "
+                     "from from_mrs(m, True, unique_ids)")
+        elif path == "findpm":
+            if "ok" in obs:
+                a1 = {canon(s_): {r: canon(t) for r, t in d} for s_, d in obs["ok"]["addl"]}
+                a2 = {canon(s_): {r: canon(t) for r, t in d} for s_, d in obs["ok"]["addl_reps"]}
+                if default_prio and a1 != a2:
+                    fail("find_predicate_modifiers gives different edges with and without the representatives passed in")
+                off, std = plain("off", False, cfg.get("prio")), plain("std", False, cfg.get("prio"))
+                if "ok" in off and "ok" in std:
+                    for no, ns in zip(off["ok"]["nodes"], std["ok"]["nodes"]):
+                        want = dict((r, canon(t)) for r, t in no["edges"])
+                        want.update(a2.get(canon(no["id"]), {}))
+                        if want != dict((r, canon(t)) for r, t in ns["edges"]):
+                            fail("find_predicate_modifiers on its own does not return the edges by which "
+                                 "from_mrs(m, True) differs from from_mrs(m, False)", no["id"])
+                            break
+                    if set(a2) - {canon(no["id"]) for no in off["ok"]["nodes"]}:
+                        fail("find_predicate_modifiers returns a key that is no node")
+        elif path == "direct" and cfg["pm"] == "fn:std":
+            if canon(obs) != canon(plain("std", cfg["uniq"], cfg.get("prio"))):
+                fail("find_predicate_modifiers passed as the callable differs from predicate_modifiers=True")
+        elif path == "direct" and cfg["pm"] == "none":
+            if canon(obs) != canon(plain("off", cfg["uniq"], cfg.get("prio"))):
+                fail("a falsy predicate_modifiers differs from predicate_modifiers=False")
+        return fails
+
+    def oracle_config(self, m, cfg, conv, mj=None):
         """every clause of the property for ONE conversion `conv` = run_live(m, cfg) of the object m,
         judged against the content m has NOW"""
         fails = []
@@ -909,24 +1254,42 @@ class C05(Check):
         e, err, ws, calls = conv
         eps = list(m.rels)
         n = len(eps)
+        kind = pm_kind(cfg)
+        path = cfg.get("path", "direct")
+        # -- user function protocol: called once, on the graph of the conversion without modifiers (node ids
+        #    = EP ids, its top and edges), with the representatives for the priority in force
+        recording = path == "direct" and (isinstance(cfg["pm"], dict) or cfg["pm"] in
+                                          ("wrap", "empty", "fn:isolated", "fn:reps", "fn:raise"))
+        if recording and not (err is not None and not calls):
+            if len(calls) != 1:
+                fail("user-supplied predicate_modifiers function not called exactly once", len(calls))
+            elif calls[0]["node_ids"] != calls[0]["ep_ids"] or calls[0]["ep_ids"] != [ep.id for ep in eps]:
+                fail("user-supplied predicate_modifiers function saw node ids that are not the EP ids", calls[0])
+            else:
+                prio = make_prio(cfg.get("prio"), m)
+                want = {l: [p.id for p in ps] for l, ps in scope.representatives(m, priority=prio).items()}
+                if calls[0]["reps"] != want:
+                    fail("user-supplied predicate_modifiers function did not receive the scope representatives")
+                c0 = {"pm": "off", "uniq": False}
+                if cfg.get("prio") not in (None, "default"):
+                    c0["prio"] = cfg["prio"]
+                b = run_live(m, c0)
+                if b[1] is None and (calls[0]["top"] != b[0].top or calls[0]["edges"] !=
+                                     [[nd.id, r, t] for nd in b[0].nodes for r, t in nd.edges.items()]):
+                    fail("user-supplied predicate_modifiers function did not receive the graph of the conversion "
+                         "without predicate modifiers")
+        elif calls:
+            fail("harness: unexpected call record")
+        if kind == "raise":
+            return fails          # what a raising callable leads to is compared with the model only
         # -- totality, no warning
         if err is not None:
             fail("conversion of a well-formed MRS raised", err)
             return fails
         if ws:
             fail("conversion of a well-formed MRS warned", ws)
-        # -- user function protocol
-        if cfg["pm"] not in ("std", "off"):
-            if len(calls) != 1:
-                fail("user-supplied predicate_modifiers function not called exactly once", len(calls))
-            elif calls[0]["node_ids"] != calls[0]["ep_ids"]:
-                fail("user-supplied predicate_modifiers function saw node ids that are not the EP ids", calls[0])
-            elif cfg["pm"] == "wrap":
-                want = {l: [p.id for p in ps] for l, ps in scope.representatives(m).items()}
-                if calls[0]["reps"] != want:
-                    fail("user-supplied predicate_modifiers function did not receive the scope representatives")
-        elif calls:
-            fail("harness: unexpected call record")
+        if path == "findpm":
+            return fails
         # -- shape: one node per predication, in order, with its data
         nodes = list(e.nodes)
         if len(nodes) != n:
@@ -941,10 +1304,24 @@ class C05(Check):
                 fail("node does not carry the predicate of its predication", i)
             if nd.carg != ep.args.get("CARG"):
                 fail("node does not carry the constant of its predication", i)
-            if (nd.lnk is None) != (ep.lnk is None) or (nd.lnk is not None and nd.lnk != ep.lnk):
+            if (nd.lnk is None) != (ep.lnk is None) or (nd.lnk is not None and (
+                    nd.lnk.type != ep.lnk.type or nd.lnk.data != ep.lnk.data or nd.cfrom != ep.cfrom
+                    or nd.cto != ep.cto)):
                 fail("node does not carry the alignment of its predication", i)
             if nd.surface != ep.surface or nd.base != ep.base:
                 fail("node does not carry the surface/base form of its predication", i)
+            if mj is not None:
+                # the same clauses against the CONTENT the object was built from (not read back through the
+                # accessors of the object, which share code with the node)
+                j = mj["rels"][i]
+                if nd.predicate != j["pred"] or nd.carg != j.get("carg") or nd.surface != j.get("surface") or \
+                        nd.base != j.get("base") or _lnk(nd.lnk) != j.get("lnk") or \
+                        (j.get("lnk") is not None and [nd.cfrom, nd.cto] != j["lnk"]):
+                    fail("node does not carry predicate / constant / alignment / surface / base of its predication "
+                         "(as given to the constructor)", i)
+                jiv = next((v for r, v in j["args"] if r == "ARG0"), None)
+                if not quant and jiv is not None and nd.type != jiv[0]:
+                    fail("node type is not the type of the intrinsic variable", [i, nd.type, jiv[0]])
             if nd.type != want_type:
                 fail("node type is not the type of the intrinsic variable", [i, nd.type, want_type])
             if dict(nd.properties) != want_props:
@@ -961,10 +1338,17 @@ class C05(Check):
         if dangling:
             fail("an edge does not end at a node", dangling)
             return fails
+        # -- the edge list as the structure reports it (EDS.edges, EDS.arguments) is the edges of its nodes
+        triples = [(nd.id, r, t) for nd in nodes for r, t in nd.edges.items()]
+        if list(e.edges) != triples or \
+                [(s_, r, t) for s_, rts in e.arguments().items() for r, t in rts] != triples:
+            fail("EDS.edges / EDS.arguments() of the result are not the edges of its nodes")
         # -- edge justification
         supplied = set()
-        if isinstance(cfg["pm"], dict):
-            supplied = {(s, r, t) for s, r, t in cfg["pm"]["const"]}
+        if kind == "user" and len(calls) == 1 and calls[0]["returned"] is not None:
+            eppos = {i: k for k, i in enumerate(calls[0]["ep_ids"])}
+            supplied = {(eppos[s_], r, eppos[t]) for s_, r, t in calls[0]["returned"]
+                        if s_ in eppos and t in eppos}
         hcs = [(hc.hi, hc.lo) for hc in m.hcons]
 
         def arg_justified(i, role, j):
@@ -994,7 +1378,7 @@ class C05(Check):
         for i, role, j in other:
             if role == "BV":
                 fail("a BV edge does not go from a quantifier to the predication it quantifies", [i, j])
-            elif cfg["pm"] not in ("std", "wrap"):
+            elif kind != "std":
                 fail("an edge is not justified by an argument of the source (predicate modifiers are off)",
                      [i, role, j])
             elif role != "ARG1" or i == j or eps[i].label != eps[j].label:
@@ -1115,9 +1499,41 @@ class C05(Check):
         if res is None:
             inc("impl:none")
             return
+        if case.get("doc") is not None:
+            inc("structure-level lnk/surface/identifier")
+        if mj.get("icons"):
+            inc("icons present")
+        if claim and any(ep.is_quantifier() and not any(p.iv == ep.iv and not p.is_quantifier() for p in m.rels)
+                         for ep in m.rels):
+            inc("quantifier of an unexpressed variable (in claim)")
+        if any(v[1] >= 2 ** 31 for ep in mj["rels"] for _, v in ep["args"]):
+            inc("variable ids >= 2^31")
         for cfg, r in zip(case["configs"], res):
             pm = cfg["pm"] if isinstance(cfg["pm"], str) else "const"
+            path = cfg.get("path", "direct")
+            inc("path:" + path)
+            inc("prio:" + (cfg.get("prio") or "not passed"))
+            if path != "direct":
+                if "err" in r:
+                    inc("err:" + r["err"] + (":in-claim" if claim else ""))
+                elif path == "findpm" and r["ok"]["addl"]:
+                    inc("findpm:non-empty mapping")
+                continue
             inc("config:pm=%s,uniq=%s" % (pm, cfg["uniq"]))
+            if cfg.get("prio") not in (None, "default"):
+                base = next((r2 for c2, r2 in zip(case["configs"], res)
+                             if c2.get("path", "direct") == "direct" and c2.get("prio") in (None, "default")
+                             and pm_kind(c2) == pm_kind(cfg) and pm_kind(cfg) in ("std", "off")
+                             and c2["uniq"] == cfg["uniq"]), None)
+                if base is not None and "ok" in base and "ok" in r and (
+                        canon(base["ok"]["nodes"]) != canon(r["ok"]["nodes"]) or base["ok"]["top"] != r["ok"]["top"]):
+                    inc("priority changes the result")
+            if pm in ("fn:isolated", "fn:reps") and "ok" in r:
+                base = next((r2 for c2, r2 in zip(case["configs"], res)
+                             if c2.get("path", "direct") == "direct" and c2["pm"] == "off"
+                             and c2.get("prio") in (None, "default") and c2["uniq"] == cfg["uniq"]), None)
+                if base is not None and "ok" in base and canon(base["ok"]["nodes"]) != canon(r["ok"]["nodes"]):
+                    inc("%s adds edges" % pm)
             if "err" in r:
                 inc("err:" + r["err"] + (":in-claim" if claim else ""))
                 continue
@@ -1128,7 +1544,8 @@ class C05(Check):
                 inc("top-none")
             if pm == "std":
                 base = next((r2 for c2, r2 in zip(case["configs"], res)
-                             if c2["pm"] == "off" and c2["uniq"] == cfg["uniq"]), None)
+                             if c2["pm"] == "off" and c2["uniq"] == cfg["uniq"] and "path" not in c2
+                             and c2.get("prio") == cfg.get("prio")), None)
                 if base is not None and "ok" in base:
                     extra = sum(len(a["edges"]) for a in o["nodes"]) - sum(len(a["edges"]) for a in base["ok"]["nodes"])
                     changed = sum(1 for a, b in zip(o["nodes"], base["ok"]["nodes"]) if a["edges"] != b["edges"])
